@@ -57,6 +57,10 @@ def gen_template(rng, i):
             arrays[p] = (rr, cc)
             lines.append("float array %s[%d, %d] =\n    {%s}" % (nm, rr, cc, p))
             g.vars[nm] = ("array", "float", rr, cc, [None] * (rr * cc))
+        elif r < 0.4 and rng.random() < 0.3:
+            # parameters spelt like p-array names (p0, p12) are ordinary parameters outside tdm programs
+            q1, q2 = rng.sample(["p0", "p1", "p12", "p007"], 2)
+            lines.append(rng.choice(["Rgate({%s}, 2 * {%s}) | 0", "Dgate(0.5, phi={%s} + {%s}) | 1", "Sgate({%s}) | 0\nKgate({%s} / 2) | 1"]) % (q1, q2))
         elif r < 0.41:
             # a variable with the NAME of a parameter it is initialised from (names of variables and parameters are separate)
             p = g.fresh(rng.choice(["alpha", "w", "gain", "th"]))
